@@ -39,6 +39,8 @@ pub mod c04;
 pub mod c20;
 pub mod c17;
 pub mod replay;
+#[cfg(not(miri))]
+pub mod cpuwatch;
 
 use report::{Args, Report};
 
